@@ -21,9 +21,11 @@ def r1(ctx):
     P = ctx.P
     b = P.body(SP + '::spawner_task::{closure#0}')
     ts = one(b.calls(r'Spawner::try_spawn$'), 'try_spawn call')
-    ctx.guard(b, ts, 'has-ticket', lambda f: f.kind == 'bool' and f.pol and tstr(f.term).startswith('has_ticket'), key='spawner_task|try_spawn|has-ticket')
+    fl_idx = flag_locals(b)
+    fl = one(sorted(set(fl_idx.values())), 'the ticket flag of spawner_task')
+    ctx.guard(b, ts, 'has-ticket', lambda f: f.kind == 'bool' and f.pol and re.match(r'^%s\b' % re.escape(fl), tstr(f.term)) is not None, key='spawner_task|try_spawn|has-ticket')
     ctx.guard(b, ts, 'incomplete', fact_call(r'Spawner::is_complete$', False), key='spawner_task|try_spawn|incomplete')
-    li = one([i for i, l in enumerate(b.locals) if l.get('name') == 'has_ticket'], 'has_ticket')
+    li = one(sorted(fl_idx), 'the ticket flag of spawner_task')
     trues, falses = [], []
     for d in b.defs()[li]:
         v = S(b._def_term(d, ()))
@@ -49,7 +51,7 @@ def r1(ctx):
     to = one(b.calls(r'tokio::time::timeout::timeout$|time::timeout$'), 'timeout call')
     a = N(b.call_args(to)[0])
     ctx.check('spawner_task|bounded-wait', re.match(r'^Duration::saturating_sub\(NETWORK_WAIT_PERIOD=.*, Instant::elapsed\((last_ticket_time.*|Instant::now\(\))\)\)$', a) is not None, 'wait bound is `%s`' % a, to.where(), sample=a[:140])
-    ctx.guard(b, to, 'no-ticket', lambda f: f.kind == 'bool' and not f.pol and tstr(f.term).startswith('has_ticket'), key='spawner_task|timeout|no-ticket')
+    ctx.guard(b, to, 'no-ticket', lambda f: f.kind == 'bool' and not f.pol and re.match(r'^%s\b' % re.escape(fl), tstr(f.term)) is not None, key='spawner_task|timeout|no-ticket')
     c = P.const('ntpd::daemon::system::NETWORK_WAIT_PERIOD')
     nb = [x for x in P.bodies.values() if x.npath == 'ntpd::daemon::system::NETWORK_WAIT_PERIOD']
     v = [S(x.local_term(0)) for x in nb]
